@@ -355,7 +355,7 @@ def run_faulty(acc):
                         w = PyWrapper(client)
                         name, a = op[0], op[1:]
                         if name == "walk":
-                            gen = w.walk(oid_s(a[0]), **kw)
+                            gen = w.walk(oid_s(a[0]), **{k: "".join(list(v)) for k, v in kw.items()})
                         elif name == "multiwalk":
                             gen = w.multiwalk([oid_s(o) for o in a[0]])
                         else:
